@@ -270,6 +270,7 @@ Theorem transform_blocks im o im' :
   exists p, request_workspace im o = inr p /\
     i_w im' = p_ow p /\ i_h im' = p_oh p /\
     Forall2 (fun c c' =>
+       (c_hs c', c_vs c') = dst_samp (p_nc p) (transposes (xo_op o)) c /\
        c_wb c' = cdiv (p_ow p * c_hs c') (p_imw p) /\ c_hb c' = cdiv (p_oh p * c_vs c') (p_imh p) /\
        forall x y, 0 <= x < c_wb c' -> 0 <= y < c_hb c' ->
          let '(g, sx, sy) := pos_of o im p c' x y in
@@ -303,6 +304,7 @@ Proof.
   set (hs := fst (dst_samp (p_nc p) (transposes (xo_op o)) c)) in *.
   set (vs := snd (dst_samp (p_nc p) (transposes (xo_op o)) c)) in *.
   cbn [c_hs c_vs c_wb c_hb c_blk]. rewrite Dmh, Dmv.
+  split; [unfold hs, vs; destruct (dst_samp (p_nc p) (transposes (xo_op o)) c); reflexivity|].
   split; [reflexivity|]. split; [reflexivity|].
   assert (Hfw : 0 <= tw (xo_op o) (i_w im) (i_h im)) by (unfold tw; destruct (transposes (xo_op o)); lia).
   assert (Hfh : 0 <= th (xo_op o) (i_w im) (i_h im)) by (unfold th; destruct (transposes (xo_op o)); lia).
@@ -395,27 +397,108 @@ Proof.
 Qed.
 
 (* ------------------------------------------------ tj3Transform crop alignment *)
-(* once jtransform_request_workspace has accepted the request, tj3Transform accepts the crop iff its
-   origin lies on the iMCU grid of the DESTINATION image (8 x the transposed maximal sampling factors,
-   8 x 8 for a single output component); then the region keeps its origin and its requested size *)
+(* once jtransform_request_workspace has accepted the request, tj3Transform accepts the crop iff the
+   destination subsampling level is known and the origin lies on the iMCU grid of the DESTINATION image
+   (the one jtransform_request_workspace computed) *)
 Theorem tj_crop_alignment im n t p :
-  1 <= i_w im -> 1 <= i_h im -> opts_nonneg (tj_xopts n t) ->
   request_workspace im (tj_xopts n t) = inr p -> t_crop t = true ->
-  let imw := if p_nc p =? 1 then 8 else tw (t_op t) (max_hs (i_comps im)) (max_vs (i_comps im)) * 8 in
-  let imh := if p_nc p =? 1 then 8 else th (t_op t) (max_hs (i_comps im)) (max_vs (i_comps im)) * 8 in
-  p_imw p = imw /\ p_imh p = imh /\
-  (tj_precheck im n t = None <-> (t_x t mod imw = 0 /\ t_y t mod imh = 0)).
+  let d := get_dst_subsamp (get_subsamp im) (t_gray t) (t_op t) in
+  (tj_precheck im n t = None <-> (d <> -1 /\ t_x t mod p_imw p = 0 /\ t_y t mod p_imh p = 0)).
 Proof.
-  intros HW HH Hnn Hp Hc. cbv zeta.
-  pose proof (plan_ok im (tj_xopts n t) p HW HH Hnn Hp) as PF.
-  pose proof (pf_imw _ _ _ PF) as Iw. pose proof (pf_imh _ _ _ PF) as Ih.
-  cbn [tj_xopts xo_op] in Iw, Ih.
-  split; [exact Iw|]. split; [exact Ih|].
-  unfold tj_precheck. rewrite Hp, Hc, <- Iw, <- Ih. cbn [andb].
-  destruct (Z.eqb_spec (t_x t mod p_imw p) 0) as [E1|E1];
-    destruct (Z.eqb_spec (t_y t mod p_imh p) 0) as [E2|E2]; cbn [negb orb];
-    split; intros H; try discriminate; try tauto; destruct H; contradiction.
+  intros Hp Hc. cbv zeta. unfold tj_precheck. rewrite Hp, Hc.
+  destruct (Z.eqb_spec (get_dst_subsamp (get_subsamp im) (t_gray t) (t_op t)) (-1)) as [E|E].
+  - split; [discriminate|]. intros [H _]. contradiction.
+  - destruct (Z.eqb_spec (t_x t mod p_imw p) 0); destruct (Z.eqb_spec (t_y t mod p_imh p) 0);
+      cbn [negb orb]; split; intros H; try discriminate; try tauto; destruct H as (_ & ? & ?); contradiction.
 Qed.
+
+(* the iMCU size jtransform_request_workspace uses, as a function of the layout *)
+Definition layout_imcu (jcs : Z) (facs : list (Z * Z)) (gray : bool) (op : xop) : Z * Z :=
+  let nc := Z.of_nat (length facs) in
+  let nc1 := (nc =? 1) || (gray && (jcs =? 3) && (nc =? 3)) in
+  let mh := fold_right (fun c m => Z.max (fst c) m) 1 facs in
+  let mv := fold_right (fun c m => Z.max (snd c) m) 1 facs in
+  if nc1 then (8, 8) else (tw op mh mv * 8, th op mh mv * 8).
+
+Definition layout_of (im : image) : list (Z * Z) := map (fun c => (c_hs c, c_vs c)) (i_comps im).
+
+Lemma layout_max cs :
+  fold_right (fun c m => Z.max (fst c) m) 1 (map (fun c => (c_hs c, c_vs c)) cs) = max_hs cs /\
+  fold_right (fun c m => Z.max (snd c) m) 1 (map (fun c => (c_hs c, c_vs c)) cs) = max_vs cs.
+Proof.
+  unfold max_hs, max_vs. induction cs as [|c cs [IH1 IH2]]; [split; reflexivity|].
+  cbn [map fold_right fst snd]. rewrite IH1, IH2. split; reflexivity.
+Qed.
+
+Lemma request_imcu_layout im o p :
+  request_workspace im o = inr p ->
+  (p_imw p, p_imh p) = layout_imcu (i_cs im) (layout_of im) (xo_gray o) (xo_op o).
+Proof.
+  unfold request_workspace, layout_imcu, layout_of. cbv zeta. rewrite map_length.
+  pose proof (layout_max (i_comps im)) as [Emh Emv].
+  rewrite Emh, Emv.
+  destruct (xo_perfect o && _); [discriminate|].
+  destruct (match xo_crop o with Some _ => _ | None => _ end) as [e|[[[ow1 oh1] xco] yco]]; [discriminate|].
+  set (ncs := Z.of_nat (length (i_comps im))).
+  assert (Hn : ((if xo_gray o && (i_cs im =? 3) && (ncs =? 3) then 1 else ncs) =? 1) =
+               ((ncs =? 1) || xo_gray o && (i_cs im =? 3) && (ncs =? 3))).
+  { destruct (xo_gray o && (i_cs im =? 3) && (ncs =? 3)) eqn:E.
+    - rewrite orb_true_r. reflexivity.
+    - rewrite orb_false_r. reflexivity. }
+  destruct (xo_op o); intros H; injection H as <-; cbn [p_imw p_imh transposes]; rewrite Hn;
+    unfold tw, th; cbn [transposes]; destruct ((ncs =? 1) || _); reflexivity.
+Qed.
+
+(* the seven TJSAMP layouts: the destination level is known and its tjMCU grid IS the destination iMCU
+   grid, for every operation with or without TJXOPT_GRAY *)
+Definition std_layouts : list (Z * list (Z * Z)) :=
+  [(3, [(1, 1); (1, 1); (1, 1)]); (3, [(2, 1); (1, 1); (1, 1)]); (3, [(2, 2); (1, 1); (1, 1)]); (1, [(1, 1)]);
+   (3, [(1, 2); (1, 1); (1, 1)]); (3, [(4, 1); (1, 1); (1, 1)]); (3, [(1, 4); (1, 1); (1, 1)])].
+Definition all_xops : list xop := [XNone; XFlipH; XFlipV; XTranspose; XTransverse; XRot90; XRot180; XRot270].
+
+Definition grid_agrees (jcs : Z) (facs : list (Z * Z)) (gray : bool) (op : xop) : bool :=
+  let d := get_dst_subsamp (get_subsamp_l jcs facs) gray op in
+  negb (d =? -1) && (tj_mcu_w d =? fst (layout_imcu jcs facs gray op)) && (tj_mcu_h d =? snd (layout_imcu jcs facs gray op)).
+
+Lemma tj_std_grid_all :
+  forallb (fun l => forallb (fun g => forallb (grid_agrees (fst l) (snd l) g) all_xops) [false; true]) std_layouts = true.
+Proof. vm_compute. reflexivity. Qed.
+
+Theorem tj_crop_alignment_std im n t p :
+  In (i_cs im, layout_of im) std_layouts ->
+  request_workspace im (tj_xopts n t) = inr p -> t_crop t = true ->
+  (tj_precheck im n t = None <-> (t_x t mod p_imw p = 0 /\ t_y t mod p_imh p = 0)) /\
+  (* and the iMCU grid is the tjMCUWidth/Height grid of getDstSubsamp, which tj3TransformBufSize uses *)
+  let d := get_dst_subsamp (get_subsamp im) (t_gray t) (t_op t) in
+  tj_mcu_w d = p_imw p /\ tj_mcu_h d = p_imh p.
+Proof.
+  intros Hl Hp Hc.
+  pose proof (request_imcu_layout im _ p Hp) as Hi. cbn [tj_xopts xo_gray xo_op] in Hi.
+  pose proof tj_std_grid_all as Hall. rewrite forallb_forall in Hall. specialize (Hall _ Hl). cbn [fst snd] in Hall.
+  rewrite forallb_forall in Hall. specialize (Hall (t_gray t) ltac:(destruct (t_gray t); cbn; tauto)).
+  rewrite forallb_forall in Hall. specialize (Hall (t_op t) ltac:(destruct (t_op t); cbn; tauto)).
+  unfold grid_agrees in Hall. cbv zeta in Hall. fold (get_subsamp im) in Hall. unfold get_subsamp in *.
+  fold (layout_of im) in *. rewrite <- Hi in Hall. cbn [fst snd] in Hall.
+  apply andb_true_iff in Hall. destruct Hall as [Hall H3]. apply andb_true_iff in Hall. destruct Hall as [H1 H2].
+  apply Z.eqb_eq in H2, H3. apply negb_true_iff in H1. apply Z.eqb_neq in H1.
+  split; [|cbv zeta; unfold get_subsamp; fold (layout_of im); split; assumption].
+  rewrite (tj_crop_alignment im n t p Hp Hc). cbv zeta. unfold get_subsamp. fold (layout_of im). tauto.
+Qed.
+
+(* non-standard layouts that getSubsamp() classifies: the TJSAMP grid differs from the iMCU grid (all
+   components 2x1 are "4:4:4", grid 8x8, iMCU 16x8).  Before fix 7d69fcb tj3Transform tested the
+   TJSAMP grid and accepted origins off the iMCU grid (finding of round 3); now it is refused *)
+Definition ex_comp_c (hs vs wb hb : Z) : comp :=
+  mkcomp hs vs wb hb 0 (map (fun k => Z.of_nat k + 1) (seq 0 64)) (fun _ _ => repeat 0 64%nat).
+Definition ex_image_2x1 : image :=
+  mkimage 64 48 3 [map (fun k => Z.of_nat k + 1) (seq 0 64)] [ex_comp_c 2 1 8 6; ex_comp_c 2 1 8 6; ex_comp_c 2 1 8 6].
+Definition ex_tjx_off : tjx := mktjx XNone false false false true 8 8 16 16.
+
+Lemma ex_nonstd_grid :
+  let d := get_dst_subsamp (get_subsamp ex_image_2x1) false XNone in
+  d = 0 /\ tj_mcu_w d = 8 /\ tj_precheck ex_image_2x1 1 ex_tjx_off = Some EAlign /\
+  tj_precheck ex_image_2x1 1 (mktjx XNone false false false true 16 8 16 16) = None.
+Proof. vm_compute. repeat split. Qed.
 
 (* an aligned, accepted tj crop without trim: the result has exactly the requested size *)
 Theorem tj_crop_size im n t p :
